@@ -314,13 +314,17 @@ def _nontrivial(rec):
     return rec["flags"]["edges"] >= 1 and rec["flags"]["ndefs"] >= 2
 
 
-def _replay(ck: Check, recs, label, entries, trace_every):
-    ncpu = min(12, os.cpu_count() or 1)
-    size = max(50, min(1000, len(recs) // (ncpu * 3) + 1))
+def _brief(rec):
+    return {"scopes": [[[d["n"], d["src"] if d["kind"] == "str" else int(d["src"])] for d in sc]
+                       for sc in rec["scopes"]],
+            "expected": rec["result"], "values": rec["val"]}
+
+
+def _replay(ck: Check, pool, ncpu, recs, label, entries, trace_every, items):
+    """Replay the records of one generator run; append the traces selected for TLC to items."""
+    size = max(25, min(1000, len(recs) // (ncpu * 3) + 1))
     chunks = [recs[i:i + size] for i in range(0, len(recs), size)]
-    with ProcessPoolExecutor(ncpu, initializer=_init_worker) as ex:
-        results = list(ex.map(_eval_chunk, [(c, entries, ck.work, i) for i, c in enumerate(chunks)]))
-    items = []
+    results = list(pool.map(_eval_chunk, [(c, entries, ck.work, i) for i, c in enumerate(chunks)]))
     for ci, (out, traces, n_eval) in enumerate(results):
         ck.evaluations += n_eval
         for (k, entry, sig, detail) in out:
@@ -332,16 +336,9 @@ def _replay(ck: Check, recs, label, entries, trace_every):
                 continue
             ck.violation(sig, detail + "\ncase: " + json.dumps(_brief(rec)),
                          {"record": rec, "entry": entry, "generator": label})
-        for j, (k, events, oc) in enumerate(traces):
+        for (k, events, oc) in traces:
             if (ci * size + k) % trace_every == 0:
-                items.append((chunks[ci][k], events, oc))
-    for i in validate_traces(ck, items, label.replace(".cfg", "")):
-        rec, events, oc = items[i]
-        ck.violation("C21/trace-rejected",
-                     "the recorded evaluation order %s (outcome %s) is not a behaviour of ExprEval\ncase: %s"
-                     % (json.dumps(events), oc, json.dumps(_brief(rec))),
-                     {"record": rec, "entry": "trace", "events": events, "outcome": oc, "generator": label})
-    ck.extra["traces_by_tlc"] = ck.extra.get("traces_by_tlc", 0) + len(items)
+                items.append((chunks[ci][k], events, oc, label))
     for rec in recs:
         ck.traces += 1
         if _nontrivial(rec):
@@ -355,95 +352,134 @@ def _replay(ck: Check, recs, label, entries, trace_every):
         ck.sample({"generator": label, "case": _brief(pick[len(pick) // 2])})
 
 
-def _brief(rec):
-    return {"scopes": [[[d["n"], d["src"] if d["kind"] == "str" else int(d["src"])] for d in sc]
-                       for sc in rec["scopes"]],
-            "expected": rec["result"], "values": rec["val"]}
-
-
 # ----------------------------------------------------------------------------- run
-def _timed(ck, label, t0):
-    import time
-    ck.extra.setdefault("stage_seconds", {})[label] = round(time.time() - t0, 1)
+def _account(ck, module, res, required_actions=()):
+    """Same bookkeeping as Check.tlc, for TLC runs started from a thread."""
+    ck.states += res.distinct
+    ck.transitions += res.generated
+    for a, (d, g) in res.coverage.items():
+        k = "%s.%s" % (module, a)
+        old = ck.cov.get(k, [0, 0])
+        ck.cov[k] = [old[0] + d, old[1] + g]
+    ck.tlc_cmds.append(res.cmd)
+    for a in required_actions:
+        if res.coverage.get(a, (0, 0))[1] == 0:
+            raise Machinery("vacuity: action %s of %s was never taken (%s)" % (a, module, res.cfg))
 
 
 def run(ck: Check):
     import time
+    from concurrent.futures import ThreadPoolExecutor
+    from harness import tlc as _tlc
     thorough = ck.tier == "thorough"
-    ck.rule = ("TLC (spec/MC_ExprEval.tla) enumerates every dependency graph on 3 (quick) / 4 (thorough) "
-               "names of one scope with every key order, placed in each kind of scope, every combination of "
-               "definitions of the prefix-related names a/ab in two or three nested or sibling scopes, and draws random cases of "
-               "up to ~16 definitions over six scopes with random + - * expression trees, random key orders "
-               "and injected cycles; Expected (values or error) = ExprEval!Expected evaluated by TLC.  Each "
-               "case is built into a Spec and evaluated through _spec_eval_expressions, "
-               "calculate_component_costs and from_yaml.  Non-trivial = at least two definitions and at "
-               "least one use of a name; distinct by the definitions in key order.")
+    ck.rule = ("TLC (spec/MC_ExprEval.tla) enumerates every dependency graph on 3 (thorough: also 4) "
+               "names of one scope (the names are prefixes of each other: a, a_b, ab / area, area_scale, "
+               "leak_power) with every key order, placed in each kind of scope; every combination of "
+               "definitions of a/ab in three nested or sibling scopes; and draws random cases of up to ~16 "
+               "definitions over six scopes with random + - * expression trees, random key orders and "
+               "injected cycles.  Expected (values or error) = ExprEval!Expected evaluated by TLC.  Each case "
+               "is built into a Spec and evaluated through _spec_eval_expressions, calculate_component_costs "
+               "and from_yaml; the recorded evaluation orders are validated by TLC (Trace_ExprEval).  "
+               "Non-trivial = at least two definitions and at least one use of a name; distinct by the "
+               "definitions in key order.")
     ck.trusted += ["ExprEval!Render (AST -> source text) and the placement of scopes 1-6 into "
                    "Spec.variables / arch.variables / component extra attributes / component attributes "
                    "(checks/c21.py build_spec, to_yaml, read_values)",
-                   "monkey-patched accelforge.util._basetypes.eval_field used only to RECORD the order of evaluation"]
+                   "monkey-patched accelforge.util._basetypes.eval_field, used only to RECORD the order of evaluation"]
     ck.assumptions += [
-        "a definition 'x: <expr mentioning x>' in a scope whose enclosing scopes also define x is not "
-        "generated: the property's words admit two readings (cycle / outer x) and the code takes the second",
+        "a definition 'x: <expr mentioning x>' in a scope whose enclosing scopes (or the predefined math "
+        "constants e, pi, ...) also define x is not generated: the property's words admit two readings "
+        "(cycle / the outer x) and the code takes the second",
         "names are Python identifiers that are not reserved by accelforge (spec, arch, variables, ...); "
         "literals are small integers; values stay below 40000 (TLC integers are 32 bit)",
-        "generated expressions only use names visible from their scope (an undefined name is not a 'definition "
-        "over already-evaluated names')"]
-    # ---- role A
-    if thorough:
-        plan_a = ["MC_ExprEval_roleA_g1.cfg", "MC_ExprEval_roleA_g1n4.cfg", "MC_ExprEval_roleA_g2.cfg",
-                  "MC_ExprEval_roleA_g2sib.cfg"]
-    else:
-        plan_a = ["MC_ExprEval_roleA_q.cfg"]
-    for cfg in plan_a:
+        "generated expressions only use names visible from their scope (an undefined name is not a "
+        "'definition over already-evaluated names')"]
+    ncpu = min(8, os.cpu_count() or 1)
+    timing = ck.extra.setdefault("stage_seconds", {})
+
+    def tlc_job(cfg, **kw):
         t0 = time.time()
-        ck.tlc_expect_ok("MC_ExprEval", cfg, required_actions=("RoleANext",), timeout=3000)
-        _timed(ck, "tlc " + cfg, t0)
-    t0 = time.time()
-    res = ck.tlc("MC_ExprEval", "MC_ExprEval_roleA_neg.cfg", timeout=1200)
-    _timed(ck, "tlc MC_ExprEval_roleA_neg.cfg", t0)
-    if res.ok or "ConfluentAcyclic" not in (res.violated or ""):
-        raise Machinery("role-A lemma: evaluating in key order against a symbol table must break "
-                        "ConfluentAcyclic, but TLC reports: %s\n%s" % (res.violated, res.tail))
+        kw.setdefault("workdir", ck.work)
+        kw.setdefault("timeout", 3000)
+        res = _tlc.run("MC_ExprEval", cfg, **kw)
+        timing["tlc " + cfg + (" seed %d" % kw["seed"] if "seed" in kw else "")] = round(time.time() - t0, 1)
+        return res
+
+    # ---- plan
+    ent_all = ("eval", "costs", "yaml")
+    if thorough:
+        plan_a = [("MC_ExprEval_roleA_g1.cfg", 2), ("MC_ExprEval_roleA_g1n4.cfg", 3),
+                  ("MC_ExprEval_roleA_g2.cfg", 4), ("MC_ExprEval_roleA_g2sib.cfg", 4)]
+        plan = [("MC_ExprEval_g1n3.cfg", None, ent_all, 2),
+                ("MC_ExprEval_g2chain.cfg", None, ent_all, 3),
+                ("MC_ExprEval_g2sib235.cfg", None, ("eval", "costs"), 3),
+                ("MC_ExprEval_g2sib135.cfg", None, ("eval", "yaml"), 3),
+                ("MC_ExprEval_g1n4.cfg", None, ("eval", "costs"), 25),
+                ("MC_ExprEval_g1n4all.cfg", None, ("eval",), 100)]
+        plan += [("MC_ExprEval_rand_t.cfg", ck.seed * 100 + i, ent_all, 1) for i in range(2)]
+    else:
+        plan_a = [("MC_ExprEval_roleA_q.cfg", 2)]
+        plan = [("MC_ExprEval_exh_q.cfg", None, ent_all, 6),
+                ("MC_ExprEval_rand.cfg", ck.seed, ent_all, 1)]
+    items = []
+    with ThreadPoolExecutor(4) as tp, ProcessPoolExecutor(ncpu, initializer=_init_worker) as pool:
+        # role A runs and the generators run side by side (each TLC run is small; JVM start-up
+        # dominates); accounting happens here, in the main thread
+        fut_a = [(cfg, tp.submit(tlc_job, cfg, workers=w)) for cfg, w in plan_a]
+        fut_neg = tp.submit(tlc_job, "MC_ExprEval_roleA_neg.cfg", workers=1)
+        fut_g = []
+        for cfg, seed, entries, every in plan:
+            kw = {"coverage": False, "workers": 4}
+            if seed is not None:
+                kw.update(seed=seed, workers=1, simulate="num=1", depth=200000)
+            fut_g.append((cfg, seed, entries, every, tp.submit(tlc_job, cfg, **kw)))
+        for cfg, seed, entries, every, fut in fut_g:
+            res = fut.result()
+            _account(ck, "MC_ExprEval", res)
+            if not res.ok:
+                raise Machinery("generator %s failed: %s\n%s" % (cfg, res.violated, res.tail))
+            if not res.records:
+                raise Machinery("generator %s printed no cases" % cfg)
+            t0 = time.time()
+            label = cfg + ("" if seed is None else " seed %d" % seed)
+            _replay(ck, pool, ncpu, res.records, label, entries, every, items)
+            timing["replay " + label] = round(time.time() - t0, 1)
+            ck.extra.setdefault("cases_per_generator", {})[label] = len(res.records)
+            del res
+        # ---- role C: one TLC run over all selected traces
+        t0 = time.time()
+        for i in validate_traces(ck, [(r, ev, oc) for r, ev, oc, _ in items], "all"):
+            rec, events, oc, label = items[i]
+            ck.violation("C21/trace-rejected",
+                         "the recorded evaluation order %s (outcome %s) is not a behaviour of ExprEval\ncase: %s"
+                         % (json.dumps(events), oc, json.dumps(_brief(rec))),
+                         {"record": rec, "entry": "trace", "events": events, "outcome": oc, "generator": label})
+        timing["tlc Trace_ExprEval (%d traces)" % len(items)] = round(time.time() - t0, 1)
+        ck.extra["traces_accepted_or_rejected_by_tlc"] = len(items)
+        # ---- role A results
+        for cfg, fut in fut_a:
+            res = fut.result()
+            _account(ck, "MC_ExprEval", res, required_actions=("RoleANext",))
+            if not res.ok:
+                raise Machinery("TLC reports a problem in design-level run %s: %s\n%s"
+                                % (cfg, res.violated, res.tail))
+        res = fut_neg.result()
+        _account(ck, "MC_ExprEval", res)
+        if res.ok or "ConfluentAcyclic" not in (res.violated or ""):
+            raise Machinery("role-A lemma: evaluating in key order against a symbol table must break "
+                            "ConfluentAcyclic, but TLC reports: %s\n%s" % (res.violated, res.tail))
     ck.extra["role_A"] = ("ExprEval (EvalField enabled once all resolved dependencies have values): in every "
                           "reachable state evaluated fields hold the definition's value (Confluent), a terminal "
                           "state has pending fields iff the case has a dependency cycle (StuckIffCycle), and "
                           "without a cycle the terminal valuation is Expected; evaluation in key order against "
                           "a symbol table violates ConfluentAcyclic (%s)" % res.violated)
-    # ---- role B / C
-    ent_all = ("eval", "costs", "yaml")
-    if thorough:
-        plan = [("MC_ExprEval_g1n3.cfg", None, ent_all, 2),
-                ("MC_ExprEval_g1n4.cfg", None, ("eval",), 20),
-                ("MC_ExprEval_g1n4self.cfg", None, ("eval", "costs"), 50),
-                ("MC_ExprEval_g2chain.cfg", None, ent_all, 4),
-                ("MC_ExprEval_g2sib235.cfg", None, ("eval", "costs"), 4),
-                ("MC_ExprEval_g2sib135.cfg", None, ("eval", "yaml"), 4)]
-        plan += [("MC_ExprEval_rand_t.cfg", ck.seed * 100 + i, ent_all, 1) for i in range(2)]
-    else:
-        plan = [("MC_ExprEval_exh_q.cfg", None, ent_all, 4),
-                ("MC_ExprEval_rand.cfg", ck.seed, ent_all, 1)]
-    for cfg, seed, entries, trace_every in plan:
-        kw = {}
-        if seed is not None:
-            kw = {"seed": seed, "workers": 1, "simulate": "num=1", "depth": 100000}
-        t0 = time.time()
-        res = ck.tlc("MC_ExprEval", cfg, timeout=3000, coverage=False, **kw)
-        _timed(ck, "tlc " + cfg + ("" if seed is None else " seed %d" % seed), t0)
-        if not res.ok:
-            raise Machinery("generator %s failed: %s\n%s" % (cfg, res.violated, res.tail))
-        if not res.records:
-            raise Machinery("generator %s printed no cases" % cfg)
-        t0 = time.time()
-        _replay(ck, res.records, cfg, entries, trace_every)
-        _timed(ck, "replay+traces " + cfg + ("" if seed is None else " seed %d" % seed), t0)
     for key in ("cases_with_cycle", "cases_with_shadowing"):
         if not ck.extra.get(key):
             raise Machinery("vacuity: no generated case had %s" % key)
     ck.exhaustive = False
     ck.extra["exhaustive_parts"] = [p[0] for p in plan if p[1] is None]
-    ck.extra["not_covered"] = ("self-reference over an outer definition of the same name (ambiguous); names "
-                               "reserved by accelforge; division, functions, non-integer values")
+    ck.extra["not_covered"] = ("self-reference over an outer/predefined definition of the same name (ambiguous); "
+                               "names reserved by accelforge; division, functions, non-integer values")
 
 
 # ----------------------------------------------------------------------------- replay
